@@ -15,6 +15,9 @@ type C08Case struct {
 	Items []SelItem      `json:"items"`
 	Star  int            `json:"star"`
 	Where *sq.E          `json:"where,omitempty"`
+	// back references to the enclosing document (`<-`): an extra WHERE conjunct and/or select item
+	BackWhere string `json:"back_where,omitempty"`
+	BackItem  string `json:"back_item,omitempty"`
 }
 
 func init() {
@@ -22,8 +25,9 @@ func init() {
 		ID:    "C08",
 		Title: "A multi-dimensional FROM applies the query inside every inner array",
 		Rule: "rapid draws a document key holding arrays of arrays of objects (depth 2-3, ragged, empty inner arrays), a select list (columns, " +
-			"simple expressions, optional *) and an optional WHERE; oracle: the result has the same nesting and each leaf array's result equals the " +
-			"execution of the same query on {nn: leaf}; FROM `mix=>nn` equals the concatenation of the leaf results in order. Non-trivial: >=2 " +
+			"simple expressions, optional *), an optional WHERE and, in half of the cases, a back reference to siblings of the source in the enclosing " +
+			"document (`<-.lim` in a comparison, IN / [NOT] EXISTS / select-item subqueries over `<-allow`); oracle: the result has the same nesting and each leaf array's result equals the " +
+			"execution of the same query on the document with that leaf in place of nn; FROM `mix=>nn` equals the concatenation of the leaf results in order. Non-trivial: >=2 " +
 			"non-empty leaves and WHERE rejects >=1 row below the first dimension.",
 		Assumptions: []string{"only WHERE + select list inside nested sources (aggregates, ORDER BY, LIMIT there are not in the statement)"},
 		Gen:         genC08,
@@ -78,15 +82,55 @@ func genC08(t *rapid.T) any {
 	if rapid.IntRange(0, 3).Draw(t, "haswhere") != 0 {
 		c.Where = pt.genBoolExpr(t, 1, "w")
 	}
+	// siblings of nn that queries inside the inner arrays reach through `<-`
+	icol := pt.Ints[0]
+	pool := pt.Tb.Col(icol).Pool
+	c.Doc["lim"] = rapid.SampledFrom(pool).Draw(t, "lim")
+	allow := []any{}
+	for i, n := 0, rapid.IntRange(0, 3).Draw(t, "nallow"); i < n; i++ {
+		allow = append(allow, map[string]any{"x": rapid.SampledFrom(pool).Draw(t, fmt.Sprintf("allow%d", i))})
+	}
+	c.Doc["allow"] = allow
+	switch rapid.IntRange(0, 7).Draw(t, "back") {
+	case 0:
+		c.BackWhere = fmt.Sprintf("%s %s `<-.lim`", icol, rapid.SampledFrom([]string{">=", "<", "=", "!="}).Draw(t, "backop"))
+	case 1:
+		c.BackWhere = fmt.Sprintf("%s IN (SELECT x FROM `<-allow`)", icol)
+	case 2:
+		c.BackWhere = fmt.Sprintf("%sEXISTS (SELECT x FROM `<-allow` WHERE x = %s)", rapid.SampledFrom([]string{"", "NOT "}).Draw(t, "backnot"), icol)
+	case 3:
+		c.BackItem = fmt.Sprintf("(SELECT x FROM `<-allow` WHERE x >= %s) AS bs", sq.NumLit(rapid.SampledFrom(pool).Draw(t, "backc").(float64)))
+	}
 	return c
 }
 
 func (c *C08Case) sql(from string) string {
-	s := "SELECT " + renderSelect(c.Items, c.Star, nil) + " FROM " + from
-	if c.Where != nil {
+	s := "SELECT " + renderSelect(c.Items, c.Star, nil)
+	if c.BackItem != "" {
+		s += ", " + c.BackItem
+	}
+	s += " FROM " + from
+	switch {
+	case c.Where != nil && c.BackWhere != "":
+		s += " WHERE " + sq.Render(c.Where, nil) + " AND " + c.BackWhere
+	case c.Where != nil:
 		s += " WHERE " + sq.Render(c.Where, nil)
+	case c.BackWhere != "":
+		s += " WHERE " + c.BackWhere
 	}
 	return s
+}
+
+// leafDoc is the document in which one leaf array stands in for nn (siblings kept).
+func (c *C08Case) leafDoc(leaf []any) map[string]any {
+	d := map[string]any{}
+	for k, v := range c.Doc {
+		if k != "nn" {
+			d[k] = val.Copy(v)
+		}
+	}
+	d["nn"] = val.Copy(leaf)
+	return d
 }
 
 func isLeaf(a []any) bool {
@@ -108,7 +152,7 @@ func checkC08(c *C08Case) Result {
 	var expect func(a []any, depth int) []any
 	expect = func(a []any, depth int) []any {
 		if isLeaf(a) && depth > 0 {
-			out := Run(map[string]any{"nn": val.Copy(a)}, sql, Opts{})
+			out := Run(c.leafDoc(a), sql, Opts{})
 			res.Execs++
 			if !out.OK() {
 				failed = out.Describe()
@@ -155,12 +199,18 @@ func checkC08(c *C08Case) Result {
 		res.Violation = fmt.Sprintf("%s\n  source   %s\n  expected the concatenation of the leaf results %s\n  got %s", msql, val.JSON(nn), val.JSON(flat), mout.Describe())
 		return res
 	}
-	res.NonTrivial = nonEmptyLeaves >= 2 && c.Where != nil && rejected >= 1
+	res.NonTrivial = nonEmptyLeaves >= 2 && (c.Where != nil || c.BackWhere != "") && rejected >= 1
 	if c.Where != nil {
 		res.Labels = append(res.Labels, "where")
 	}
 	if c.Star != 0 {
 		res.Labels = append(res.Labels, "star")
+	}
+	if c.BackWhere != "" {
+		res.Labels = append(res.Labels, "back-reference-in-where")
+	}
+	if c.BackItem != "" {
+		res.Labels = append(res.Labels, "back-reference-in-select-item")
 	}
 	return res
 }
